@@ -49,9 +49,9 @@ def attributed_props(f, fns_meta):
 def callee_closure(unit, prop):
     """functions of the unit whose CONTRACT a proof of `prop` may use: the functions carrying the property (fn tag or clause tag)
     and everything they call, transitively, by name (over-approximation: an identifier followed by `(`)"""
-    mp = load_json(os.path.join(VERIF, 'gen', unit + '.map.json'), {'lines': [], 'functions': {}})
+    mp = load_json(os.path.join(G.GEN, unit + '.map.json'), {'lines': [], 'functions': {}})
     try:
-        lines = open(os.path.join(VERIF, 'gen', unit + '.rs')).read().split('\n')
+        lines = open(os.path.join(G.GEN, unit + '.rs')).read().split('\n')
     except OSError:
         return set()
     fns = {k: m for k, m in mp['functions'].items() if not m.get('item') and m.get('gen_start_line')}
@@ -77,7 +77,7 @@ def callee_closure(unit, prop):
 
 
 def tagged_clauses(unit, prop):
-    mp = load_json(os.path.join(VERIF, 'gen', unit + '.map.json'), {'lines': [], 'functions': {}})
+    mp = load_json(os.path.join(G.GEN, unit + '.map.json'), {'lines': [], 'functions': {}})
     seen, out = set(), []
     for e in mp['lines']:
         if e.get('clause') and prop in e.get('props', []) and not e.get('stub'):
